@@ -593,7 +593,7 @@ fn doc_delete_sets(ctx: &mut Ctx, fam: Fam, depth: usize, gc: bool, idx: &mut u6
         RCfg { client: 1, gc, utf16: false, cleanup: true },
         RCfg { client: 2, gc, utf16: false, cleanup: true },
     ];
-    let h = HistCfg { fam, level: 0, cfgs: cfgs.clone(), depth, syncs: true };
+    let h = HistCfg { fam, level: 0, cfgs: cfgs.clone(), depth, syncs: true, partial: 0 };
     let shard = ctx.shard;
     let nsh = ctx.nshards as u64;
     let mut first = |_i: u64| {
